@@ -167,7 +167,17 @@ type gen struct {
 	budget int
 	taint  taints
 	probe  func(string)
+	// lits: also draw number literals that are no plain integers (fractions,
+	// exponents, beyond 64 bits). Plain JSON signing passes a number through
+	// as it is spelled; events (canonical JSON enforced from room version 6)
+	// may not carry them, so only the C02 workload sets this.
+	lits bool
 }
+
+// numLitPool: spellings a signer must leave alone (none is a negative zero,
+// the one number canonical JSON rewrites).
+var numLitPool = []string{"1.0", "1e5", "1E2", "1.5", "0.1e-2", "2.5e-3", "100000.0", "123456789012345678901234567890",
+	"9223372036854775808.0", "-9223372036854775808", "9223372036854775807.0", "9.223372036854775808e18", "-9223372036854775808.0", "18446744073709551616", "-1e400", "4.9e-324", "1e-05", "-0.5", "-0.25e1", "7E-03"}
 
 var plainKeys = []string{"a", "b", "k1", "name", "type", "content", "value", "list", "depth", "é", "日本", "😀k",
 	"a.b", "*", "#", "?x", "a|b", "@", "%", "sig natures", "signatures.x", "unsigned.y", "0", "-1", "", " ", "A", "Z", "_", "~", "\u007f", "\u2028",
@@ -248,6 +258,10 @@ func (g *gen) str() string {
 }
 
 func (g *gen) integer() json.Number {
+	if g.lits && g.t.Chance(100) {
+		g.probe("gen_number_literal_not_a_plain_integer")
+		return json.Number(sim.Pick(g.t, numLitPool))
+	}
 	switch g.t.Intn(4) {
 	case 1:
 		return num(int64(g.t.Intn(1<<20)) - 1<<19)
